@@ -84,7 +84,8 @@ func runReportWriter(a []string) (result string) {
 	go func() { wg.Wait(); close(fin) }()
 	select {
 	case <-fin:
-	case <-time.After(caseTimeout):
+	case <-time.After(curTimeout()):
+		noteTimeout()
 		return "timeout independent-drain"
 	}
 	// run 2: the writer
@@ -98,7 +99,8 @@ func runReportWriter(a []string) (result string) {
 		if err != nil {
 			return "ok writer-error " + strings.ReplaceAll(err.Error(), " ", "_")
 		}
-	case <-time.After(caseTimeout):
+	case <-time.After(curTimeout()):
+		noteTimeout()
 		return "ok writer-hang rows-expected=" + strconv.Itoa(len(dates))
 	}
 	// parse the rendered rows
@@ -198,7 +200,8 @@ func runWriters(a []string) (result string) {
 	go func() { wg.Wait(); close(done) }()
 	select {
 	case <-done:
-	case <-time.After(caseTimeout):
+	case <-time.After(curTimeout()):
+		noteTimeout()
 		return "timeout"
 	}
 	for i, n := range lens {
